@@ -262,7 +262,13 @@ func (s *scStart) Configure(w *World) {
 			v.high = uint64(5 + t.Draw(10, nil))
 			if has && s.fault != "flog-error" {
 				seq := uint64(t.Draw(int(v.high)+1, nil))
-				w.seedCheckpoint(vb, journal.Off{UUID: uuid, Seq: seq, Start: seq, End: seq})
+				ss, se := seq, seq
+				if t.Draw(2, nil) == 1 && seq > 0 {
+					// a checkpoint taken in the middle of a multi-item snapshot
+					ss = seq - uint64(t.Draw(int(seq), nil))
+					se = seq + uint64(t.Draw(int(v.high-seq)+1, nil))
+				}
+				w.seedCheckpoint(vb, journal.Off{UUID: uuid, Seq: seq, Start: ss, End: se})
 			}
 		}
 	}
